@@ -117,13 +117,13 @@ func init() {
 	}
 	// name lookup in a namespace block: locals, then globals, then builtins, NameError last [ceval.c]  []
 	pathSpec["vm|do_LOAD_NAME"] = []string{
-		"[!(ok)] vm.frame.Lookup(vm.frame.Code.Names[p2]); ExceptionNewf(py.NameError, \"name '%s' is not defined\", vm.frame.Code.Names[p2]) -> err!",
-		"[ok] vm.frame.Lookup(vm.frame.Code.Names[p2]) -> nil",
+		"[!(flag1)] vm.frame.Lookup(vm.frame.Code.Names[p2]); ExceptionNewf(py.NameError, \"name '%s' is not defined\", vm.frame.Code.Names[p2]) -> err!",
+		"[flag1] vm.frame.Lookup(vm.frame.Code.Names[p2]) -> nil",
 	}
 	// global lookup: globals, then builtins, NameError last [ceval.c]  []
 	pathSpec["vm|do_LOAD_GLOBAL"] = []string{
-		"[!(ok)] vm.frame.LookupGlobal(vm.frame.Code.Names[p2]); ExceptionNewf(py.NameError, \"name '%s' is not defined\", vm.frame.Code.Names[p2]) -> err!",
-		"[ok] vm.frame.LookupGlobal(vm.frame.Code.Names[p2]) -> nil",
+		"[!(flag1)] vm.frame.LookupGlobal(vm.frame.Code.Names[p2]); ExceptionNewf(py.NameError, \"name '%s' is not defined\", vm.frame.Code.Names[p2]) -> err!",
+		"[flag1] vm.frame.LookupGlobal(vm.frame.Code.Names[p2]) -> nil",
 	}
 	// class-body free variable: the class namespace first, then the cell of the enclosing function, unbound error last [ceval.c]  []
 	pathSpec["vm|do_LOAD_CLASSDEREF"] = []string{
